@@ -127,3 +127,31 @@ ENGINES.append({'name': 'streamsim', 'path': '/verif/engines/streamsim.py',
                 'serves_properties': ['C01', 'C10', 'C11', 'C12', 'C13', 'C14'],
                 'kind_free_text': 'seeded histories of public-API calls by stub unit operations on shared real streams, '
                                   'with model/solver fault injection, cache pressure and pickled restarts'})
+
+TEXT.update({
+    'C02': {
+        'level': 'seeded exploration of energy-balanced mixes (receiver among the inlets, proxies, Q), separate_out and '
+                 'H / h / S assignments on liquid and gas streams inside 250-500 K, with model and solver failures '
+                 'injected INSIDE the temperature solve so that the setters\' phase-flip recovery and mix_from\'s '
+                 'fallback run; enthalpy/entropy are recomputed through the mixture model on dense rows (never the '
+                 'stream memo) and compared within bounds calibrated on fresh objects (tools/calibrate_c02.py).',
+        'design_ref': '5/C02', 'note': _STREAM_NOTE + '; tolerances: H,h 100 x C*T_tol, S 2.5e4 x C*T_tol/T (10 x calibration max)',
+        'technique': 'deterministic simulation: fault injection in solver/model seams + defining-equation oracle',
+    },
+    'C05': {
+        'level': 'seeded exploration of reactor histories: reused and edited reaction objects (single / parallel / '
+                 'series / system, mol and wt basis, phase-tagged, defined on a package with another chemical order) '
+                 'applied to shared streams with warm mass/volume views, proxies, restarts, and to bare arrays; '
+                 'dense reference arithmetic, mass and (C,H,O) balance with the harness own atom table, over-conversion '
+                 'must raise, package and mass view restored after each normal return.',
+        'design_ref': '5/C05', 'note': _COMMON_NOTE + '; nothing is demanded after a raising reaction (statistics only)',
+        'technique': 'deterministic simulation: seeded reuse/edit histories + dense refinement oracle',
+    },
+})
+for _p in ('C02', 'C05'):
+    PENDING.pop(_p, None)
+for _e in ENGINES:
+    if _e['name'] == 'streamsim' and 'C02' not in _e['serves_properties']:
+        _e['serves_properties'].insert(1, 'C02')
+ENGINES.append({'name': 'rxnsim', 'path': '/verif/engines/rxnsim.py', 'serves_properties': ['C05'],
+                'kind_free_text': 'seeded histories of reaction objects applied to shared streams and arrays'})
